@@ -468,6 +468,7 @@ fn normalise_sql_msg(msg: &str) -> String {
 
 /// signature `sql:<shape>` of a database engine error on a request that passed parsing
 pub fn classify_sql(kind: &str, msg: &str, facts: &SqlFacts) -> String {
+    let full_msg = msg;
     // the two shapes below explained engine errors before bfec9df / 5fd9076 repaired them; an error in a
     // statement that has one of them is now classified by its real cause
     let json_default_selected = false;
@@ -563,7 +564,38 @@ pub fn classify_sql(kind: &str, msg: &str, facts: &SqlFacts) -> String {
     if quote_in_string_default && (near.is_some() || msg.contains("unrecognized token")) {
         return "sql:quote-in-string-default".to_string();
     }
+    // last resort before an unclassified signature: the table aliases the statement really uses (read from the SQL
+    // text the engine quotes in its message). The entity name / alias is written unquoted after the table name.
+    let engine_refused = msg.contains("syntax error") || msg.contains("unrecognized token") || msg.contains("no such column") || msg.contains("unknown join type");
+    if engine_refused {
+        let aliases = sql_table_aliases(full_msg);
+        if aliases.iter().any(|a| a.starts_with('$')) {
+            return "sql:alias-starting-with-a-dot".to_string();
+        }
+        if aliases.iter().any(|a| is_sql_keyword(a)) {
+            return "sql:reserved-word-as-table-alias".to_string();
+        }
+        if aliases.iter().any(|a| a.chars().next().map(|c| c.is_ascii_digit()).unwrap_or(false)) {
+            return "sql:digit-first-identifier-as-table-alias".to_string();
+        }
+    }
     format!("sql:{}:{}", kind, normalise_sql_msg(msg))
+}
+
+/// the identifiers that follow `_node ` in the SQL text quoted by an engine error message
+pub fn sql_table_aliases(message: &str) -> Vec<String> {
+    let mut out = vec![];
+    let mut rest = message;
+    while let Some(i) = rest.find("_node ") {
+        let after = &rest[i + 6..];
+        let alias: String = after.chars().take_while(|c| !c.is_whitespace() && *c != '\\' && *c != ',' && *c != ')').collect();
+        let alias = alias.split("\\n").next().unwrap_or("").to_string();
+        if !alias.is_empty() {
+            out.push(alias);
+        }
+        rest = after;
+    }
+    out
 }
 
 // ---------------------------------------------------------------------------------------------
